@@ -8,6 +8,13 @@
 #include <string.h>
 #include <pthread.h>
 
+#ifdef IOWOW_VERIF
+#include "iwverif_exec.h"
+void (*iwverif_ev)(int kind, const void *obj, intptr_t arg) = 0;
+#else
+#define IWVERIF_EV(k_, o_, a_)
+#endif
+
 struct _task {
   iwstw_task_f fn;
   void *arg;
@@ -52,6 +59,7 @@ static void* _worker_fn(void *op) {
         stw->tail = 0;
       }
       --stw->cnt;
+      IWVERIF_EV(8, stw, arg);
       free(h);
     }
     pthread_mutex_unlock(&stw->mtx);
@@ -185,6 +193,7 @@ iwrc iwstw_schedule(struct iwstw *stw, iwstw_task_f fn, void *arg) {
     stw->tail = task;
   }
   ++stw->cnt;
+  IWVERIF_EV(7, stw, arg);
   pthread_cond_broadcast(&stw->cond);
   pthread_mutex_unlock(&stw->mtx);
 
@@ -230,6 +239,7 @@ iwrc iwstw_schedule_only(struct iwstw *stw, iwstw_task_f fn, void *arg) {
   stw->head = task;
   stw->tail = task;
   stw->cnt = 1;
+  IWVERIF_EV(7, stw, arg);
 
   pthread_cond_broadcast(&stw->cond);
   pthread_mutex_unlock(&stw->mtx);
@@ -272,6 +282,7 @@ iwrc iwstw_schedule_empty_only(struct iwstw *stw, iwstw_task_f fn, void *arg, bo
   stw->head = task;
   stw->tail = task;
   ++stw->cnt;
+  IWVERIF_EV(7, stw, arg);
   pthread_cond_broadcast(&stw->cond);
   pthread_mutex_unlock(&stw->mtx);
 
